@@ -392,6 +392,21 @@ def check_features(ctx, fi, block, total):
         raise AnalysisError('%s: loop over (Q, y, noise, proj) measurements not found' % where)
     loop, entry = loops[0][0], loops[0][1]
     Q, y, noise, proj = [e.id for e in loop.target.elts]
+    # an accumulator kept ON THE OBJECT: unless this activation empties it first, the entries of earlier calls join the combination
+    for c_ in [n for n in ast.walk(loop) if isinstance(n, ast.Call) and isinstance(n.func, ast.Attribute) and n.func.attr in ('append', 'extend')
+               and isinstance(n.func.value, ast.Attribute) and U(n.func.value.value) == 'self']:
+        attr_ = U(c_.func.value)
+        emptied = False
+        for st_ in stmts:
+            if st_ is loop or any(n is loop for n in ast.walk(st_)):
+                break
+            if isinstance(st_, ast.Assign) and any(U(t_) == attr_ for t_ in st_.targets) and T(st_.value) in EMPTY_INITS:
+                emptied = True
+        if not emptied and any(attr_ in U(s_) for s_ in stmts if s_ is not loop and not any(n is loop for n in ast.walk(s_))):
+            ctx.ob('guarded-append', fi, c_, False,
+                   'the measurement loop grows `%s`, a list kept on the object that this activation never empties, and the total is combined from it: from the '
+                   'second call on, the estimates of every earlier call (other measurements, other noise) are averaged in' % attr_,
+                   construct='accumulator kept on the object in ' + where)
     if not be.events:
         raise AnalysisError('%s: no accumulator is grown inside the measurement loop' % where)
 
@@ -534,6 +549,9 @@ def check_features(ctx, fi, block, total):
         val = with_v(evs[0].value)
         comps = list(enumerate(val.elts)) if isinstance(val, ast.Tuple) else [(None, val)]
         for idx, c in comps:
+            if idx is not None and not ({'__v__', y, noise} & set(names_in(c))) and isinstance(c, (ast.Name, ast.Constant, ast.Tuple)):
+                roles[(acc, idx)] = '__other__'          # a label kept next to the numbers (the clique, a position): takes no part in the estimate
+                continue
             try:
                 got = ev.ev(c)
             except AnalysisError as e:
@@ -588,7 +606,7 @@ def check_features(ctx, fi, block, total):
             if n.id in multi:
                 return name('__acc__')
             return None
-        if isinstance(n, ast.Call) and U(n.func) in ('np.array', 'np.asarray', 'numpy.array', 'list', 'tuple') and len(n.args) == 1:
+        if isinstance(n, ast.Call) and U(n.func) in ('np.array', 'np.asarray', 'numpy.array', 'list', 'tuple', 'np.hstack', 'numpy.hstack') and len(n.args) == 1:
             inner = view(n.args[0])
             if inner is not None and inner.id != '__acc__':
                 return inner
